@@ -1263,3 +1263,20 @@ func pathExistsEB(fn *ssa.Function, from ssa.Instruction, to func(ssa.Instructio
 	}
 	return nil, false
 }
+
+// Unwrap is Origin that also looks through interface conversions.
+func (x *FnIndex) Unwrap(v ssa.Value) ssa.Value {
+	for i := 0; i < 8; i++ {
+		v = x.Origin(v)
+		switch t := v.(type) {
+		case *ssa.MakeInterface:
+			v = t.X
+			continue
+		case *ssa.ChangeInterface:
+			v = t.X
+			continue
+		}
+		break
+	}
+	return v
+}
